@@ -11,6 +11,7 @@
 package txpool
 
 import (
+	"encoding/json"
 	"fmt"
 	"math/big"
 	"math/rand"
@@ -18,6 +19,7 @@ import (
 	"sort"
 	"strings"
 	"sync"
+	"sync/atomic"
 	"time"
 
 	"github.com/youchainhq/go-youchain/common"
@@ -386,6 +388,7 @@ func run(env *drive.Env) error {
 	if env.Opt("mode", "") == "stress" {
 		return stress(env)
 	}
+	conc := env.Opt("mode", "") == "conc"
 	var beh []Op
 	for env.Next(&beh) {
 		if len(beh) == 0 || beh[0].Op != "Init" {
@@ -396,8 +399,17 @@ func run(env *drive.Env) error {
 			"aq": beh[0].AQ, "gq": beh[0].GQ, "bump": beh[0].Bump}, "obs": w.obs()})
 		for i := 1; i < len(beh); i++ {
 			op := &beh[i]
-			res := w.apply(op)
+			var res map[string]interface{}
+			var reads map[string]interface{}
+			if conc {
+				res, reads = w.applyConcurrently(op, env.OptInt("readers", 3))
+			} else {
+				res = w.apply(op)
+			}
 			ev := map[string]interface{}{"ev": op.Op, "args": args(op), "res": res}
+			if reads != nil {
+				ev["reads"] = reads
+			}
 			if res["panic"] != nil {
 				ev["panic"] = res["panic"]
 				env.Emit(ev)
@@ -527,4 +539,110 @@ func stress(env *drive.Env) error {
 		w.close()
 	}
 	return nil
+}
+
+// ---------------------------------------------------------------- concurrent blocks
+// applyConcurrently runs one writer step (the abstract action, through its synchronous entry point) while k reader
+// goroutines, released by the same barrier, keep calling the read API of the pool (Nonce of every account, Stats, Content,
+// Pending, Locals, Status of every transaction created so far) the way RPC, miner and protocol handlers do.  It returns the
+// writer's result and, per API, the set of distinct values the readers saw; each of them must be the view of the pool at
+// some point between the start and the end of the block (judged by spec/TxPool_Conc.tla).  Every transaction the step
+// needs is created before the goroutines start, so the driver's own tables are only read concurrently.
+type seen struct {
+	mu sync.Mutex
+	m  map[string]map[string]json.RawMessage
+}
+
+func (s *seen) add(api string, v interface{}) {
+	b, err := json.Marshal(v)
+	if err != nil {
+		return
+	}
+	s.mu.Lock()
+	if s.m[api] == nil {
+		s.m[api] = map[string]json.RawMessage{}
+	}
+	s.m[api][string(b)] = b
+	s.mu.Unlock()
+}
+
+func (w *world) readOnce(s *seen, hashes []common.Hash) {
+	for a := 1; a <= w.na; a++ {
+		s.add(fmt.Sprintf("nonce%d", a), int(w.pool.Nonce(w.keys[a].Addr)))
+	}
+	np, nq := w.pool.Stats()
+	s.add("stats", []int{np, nq})
+	pend, que := w.pool.Content()
+	pa, _ := w.perAcct(pend)
+	qa, _ := w.perAcct(que)
+	s.add("content", []interface{}{pa, qa})
+	miner, _ := w.pool.Pending()
+	ma, _ := w.perAcct(miner)
+	s.add("miner", ma)
+	loc := []int{}
+	for _, addr := range w.pool.Locals() {
+		if a, ok := w.idx[addr]; ok {
+			loc = append(loc, a)
+		}
+	}
+	sort.Ints(loc)
+	s.add("loc", loc)
+	st := w.pool.Status(hashes)
+	known := [][]int{}
+	for i, h := range hashes {
+		if st[i] != core.TxStatusUnknown {
+			t := w.known[h]
+			known = append(known, []int{t.A, t.N, t.P, t.V, int(st[i])})
+		}
+	}
+	s.add("status", known)
+}
+
+func (w *world) applyConcurrently(op *Op, k int) (map[string]interface{}, map[string]interface{}) {
+	// create what the step will need (signing touches the driver's tables)
+	for _, t := range op.Ts {
+		w.tx(t)
+	}
+	if op.Op == "ResetSync" {
+		for n := 0; n <= op.N; n++ {
+			w.tx(T{A: op.A, N: n, P: 1, V: 0})
+		}
+	}
+	hashes := append([]common.Hash{}, w.order...)
+	s := &seen{m: map[string]map[string]json.RawMessage{}}
+	start := make(chan struct{})
+	var stop int32
+	var wg sync.WaitGroup
+	for g := 0; g < k; g++ {
+		wg.Add(1)
+		go func() {
+			defer wg.Done()
+			<-start
+			for {
+				w.readOnce(s, hashes)
+				if atomic.LoadInt32(&stop) != 0 {
+					w.readOnce(s, hashes)
+					return
+				}
+			}
+		}()
+	}
+	close(start)
+	res := w.apply(op)
+	atomic.StoreInt32(&stop, 1)
+	wg.Wait()
+	reads := map[string]interface{}{}
+	for api, vals := range s.m {
+		keys := make([]string, 0, len(vals))
+		for kk := range vals {
+			keys = append(keys, kk)
+		}
+		sort.Strings(keys)
+		list := []json.RawMessage{}
+		for _, kk := range keys {
+			list = append(list, vals[kk])
+		}
+		reads[api] = list
+	}
+	return res, reads
 }
